@@ -42,6 +42,7 @@ static void es_child_exit() { _exit(77); }
 static void es_child_setup() {
     signal(SIGSEGV, SIG_DFL); signal(SIGBUS, SIG_DFL); signal(SIGILL, SIG_DFL); signal(SIGFPE, SIG_DFL); signal(SIGABRT, SIG_DFL);
     std::set_terminate(es_child_exit);
+    alarm(30);              // a call that does not return is a fault (14) too
 }
 template<class T> __attribute__((noinline)) static void es_load(T* d, const T* s, size_t n) {
     for (size_t i = 0; i < n; ++i) d[i] = s[i];
